@@ -232,14 +232,24 @@ func PropC14(c *vs.Case, f Factory, kind string) error {
 					must[pkey(p)] = true
 				}
 				if scn.Cfg.IgnoreStatus {
-					// same generation/labels/annotations, no deletionTimestamp => dropped; otherwise queued
+					// The same object as old and new (a resync, or the replay of the cache to a new handler) is no
+					// status change. C14 lets an implementation drop it under ignoreStatusChanges ("updates that
+					// change neither generation, labels, annotations nor deletion state") but does not demand that;
+					// since /repo fix for the deaf-controller defect it is queued. Not judged here beyond "never an
+					// unselected parent" - the live job (second controller on warm informers) is what needs it.
 					if IsDeleting(p) && w.selected(p) {
 						must[pkey(p)] = true
 					}
+					log = append(log, what)
+					if err := w.expect2(c, what, must, false, true); err != nil {
+						return err
+					}
+					continue
 				}
 			case "update":
 				cur := vs.CopyMap(p)
 				cm := cur["metadata"].(map[string]any)
+				cm["resourceVersion"] = fmt.Sprintf("9%03d", ev) // every real update carries a new resourceVersion
 				change := c.PickStr("status", "labels", "annotations", "generation", "deleting")
 				what += " (" + change + ")"
 				switch change {
